@@ -298,3 +298,122 @@ def enclosing_stmt_map(fn: ast.FunctionDef) -> dict[int, ast.stmt]:
     for s in fn.body:
         visit_stmt(s)
     return out
+
+
+# ------------------------------------------------------------------ definite assignment (per loop iteration)
+def _stores_of(node: Node) -> set[str]:
+    st = node.ast
+    out: set[str] = set()
+    if st is None:
+        return out
+    if node.kind == "iter":
+        roots = [st.target]
+    elif node.kind == "test":
+        roots = [st.test]
+    elif isinstance(st, (ast.With, ast.AsyncWith)):
+        roots = [i.optional_vars for i in st.items if i.optional_vars is not None]
+    elif isinstance(st, ast.Try):
+        roots = []
+    elif isinstance(st, (ast.FunctionDef, ast.AsyncFunctionDef, ast.ClassDef)):
+        return {st.name}
+    elif isinstance(st, (ast.Import, ast.ImportFrom)):
+        return {(a.asname or a.name).split(".")[0] for a in st.names}
+    else:
+        roots = [st]
+    for r in roots:
+        for n in ast.walk(r):
+            if isinstance(n, ast.Name) and isinstance(n.ctx, ast.Store):
+                out.add(n.id)
+    return out
+
+
+def _loads_of(node: Node) -> list[ast.Name]:
+    st = node.ast
+    if st is None:
+        return []
+    if node.kind == "iter":
+        roots = [st.iter]
+    elif node.kind == "test":
+        roots = [st.test]
+    elif isinstance(st, (ast.With, ast.AsyncWith)):
+        roots = [i.context_expr for i in st.items]
+    elif isinstance(st, (ast.Try, ast.FunctionDef, ast.AsyncFunctionDef, ast.ClassDef)):
+        return []
+    else:
+        roots = [st]
+    out = []
+    for r in roots:
+        bound_in_comp: set[str] = set()
+        for n in ast.walk(r):
+            if isinstance(n, ast.comprehension):
+                for t in ast.walk(n.target):
+                    if isinstance(t, ast.Name):
+                        bound_in_comp.add(t.id)
+            if isinstance(n, ast.Lambda):
+                for a in n.args.args:
+                    bound_in_comp.add(a.arg)
+        for n in ast.walk(r):
+            if isinstance(n, ast.Name) and isinstance(n.ctx, ast.Load) and n.id not in bound_in_comp:
+                out.append(n)
+    return out
+
+
+def possibly_unassigned(cfg: "CFG") -> list[tuple[Node, str]]:
+    """(node, name) pairs where a local of the function is read although it is not assigned on every path that
+    reaches the read *within the current loop iteration* (back edges are ignored, so a value left over from a
+    previous iteration does not count as an assignment)."""
+    fn = cfg.fi.node
+    params = {a.arg for a in fn.args.posonlyargs + fn.args.args + fn.args.kwonlyargs}
+    if fn.args.vararg:
+        params.add(fn.args.vararg.arg)
+    if fn.args.kwarg:
+        params.add(fn.args.kwarg.arg)
+    local_names: set[str] = set()
+    for n in cfg.nodes:
+        local_names |= _stores_of(n)
+    local_names -= params
+    # back edges by DFS
+    back: set[tuple[int, int]] = set()
+    color: dict[int, int] = {}
+
+    def dfs(u: int) -> None:
+        stack = [(u, iter(cfg.succ.get(u, [])))]
+        color[u] = 1
+        while stack:
+            x, it = stack[-1]
+            adv = False
+            for e in it:
+                if color.get(e.dst, 0) == 1:
+                    back.add((e.src, e.dst))
+                elif color.get(e.dst, 0) == 0:
+                    color[e.dst] = 1
+                    stack.append((e.dst, iter(cfg.succ.get(e.dst, []))))
+                    adv = True
+                    break
+            if not adv:
+                color[x] = 2
+                stack.pop()
+    dfs(ENTRY)
+    IN: dict[int, Optional[frozenset]] = {n.id: None for n in cfg.nodes}
+    IN[ENTRY] = frozenset()
+    work = [ENTRY]
+    while work:
+        x = work.pop()
+        cur = IN[x]
+        out = cur | frozenset(_stores_of(cfg.nodes[x]))
+        for e in cfg.succ.get(x, []):
+            if (e.src, e.dst) in back:
+                continue
+            old = IN[e.dst]
+            new = out if old is None else (old & out)
+            if old is None or new != old:
+                IN[e.dst] = new
+                work.append(e.dst)
+    res = []
+    for n in cfg.nodes:
+        if IN[n.id] is None:
+            continue
+        for nm in _loads_of(n):
+            if nm.id in local_names and nm.id not in IN[n.id]:
+                res.append((n, nm.id))
+    return res
